@@ -64,6 +64,8 @@ st2 = make(struct { S struct { A []int64 } })
 	}))
 	must(e.Define("swap", func(p, q interface{}) (interface{}, interface{}) { return q, p }))
 	must(e.Define("arr2", func(a [2]int64) int64 { return a[0] + a[1] }))
+	must(e.Define("sendonly", (chan<- int64)(make(chan int64, 1))))
+	must(e.Define("recvonly", (<-chan int64)(make(chan int64, 1))))
 	must(e.Define("parr2", func(a *[2]int64) int64 { return a[0] + a[1] }))
 	must(e.Define("hparr", &struct{ P *[2]int64 }{}))
 	must(e.Define("harr", [3]int64{1, 2, 3}))
@@ -211,6 +213,10 @@ var degenerateForms = []string{
 	"nm = make([]map[float64]int64, 1)\nnm[0][0.0 / 0.0] += 1", "nm = make([]map[float64]int64, 1)\nnm[0][0.0 / 0.0]++\nnm", "nm = make([]map[float64]int64, 1)\n[nm[0][0.0 / 0.0] = 1]",
 	"nm = make([]map[float64]string, 1)\nx9 = (nm[0][0.0 / 0.0] = \"v\")\nx9", "nm = make([]map[interface]int64, 1)\nnm[0][0.0 / 0.0] += 2\nlen(nm[0])", "mm = {}\nmm[0.0 / 0.0] = 1\nmm[0.0 / 0.0] += 1\nlen(mm)",
 	"st9 = make(struct { M map[float64]int64 })\nst9.M[0.0 / 0.0] += 1", "parr2([1])", "parr2([1, 2])", "parr2(make([]int64, 1))", "parr2(make([]int64, 2))", "parr2(make([]int64, 3))", "hparr.P = make([]int64, 1)", "hparr.P = [1, 2]\nhparr.P",
+	"harr[3] = 1", "harr[len(harr)] = 1\nharr", "harrs[0][3] = 1", "x2 = harr\nx2[3] = 4", "harr += 1\nharr", "harr[3] += 1", "[harr][0][3] = 2",
+	// directional channels (host values; the bundled time package hands out receive-only ones)
+	"<-sendonly", "x8 = <-sendonly", "x8, ok8 = <-sendonly", "for q in sendonly { break }", "sendonly <- 1\nlen(sendonly)", "close(recvonly)", "recvonly <- 1", "ch <- recvonly", "sendonly <- recvonly", "recvonly <- sendonly",
+	"tm9 = import(\"time\")\ntm9.After(1) <- 5", "tm9 = import(\"time\")\nclose(tm9.After(1))", "tm9 = import(\"time\")\ntk = tm9.NewTicker(1000000)\ntk.C <- 1", "len(recvonly)", "len(sendonly)",
 	"func rec(n) { return rec(n) }", "type T struct", "struct", "chan", "map", "len", "return 1, ", "throw", "break", "continue", "return",
 }
 
